@@ -577,7 +577,29 @@ fn scramble_triangles(rng: &mut Rng, polys: &[Polygon<f64>]) -> Vec<Triangle<f64
 
 /// Non-overlapping polygon sets that stitch back into several rings.
 fn stitch_polys(rng: &mut Rng) -> Vec<Polygon<f64>> {
-    match rng.below(8) {
+    match rng.below(10) {
+        8 | 9 => {
+            // plates with several holes each (2..6 unit holes in a row, sometimes in two rows): the order of the
+            // interiors of one polygon is part of the result
+            let mut v = vec![];
+            let mut x0 = 0i64;
+            for _ in 0..rng.range(1, 2) {
+                let m = rng.range(2, 6);
+                let rows = rng.range(1, 2);
+                let mut holes = vec![];
+                for r in 0..rows {
+                    for i in 0..m {
+                        if rng.chance(5, 6) {
+                            holes.push(rect_ring(x0 + 2 * i + 1, 2 * r + 1, x0 + 2 * i + 2, 2 * r + 2));
+                        }
+                    }
+                }
+                rng.shuffle(&mut holes);
+                v.push(Polygon::new(rect_ring(x0, 0, x0 + 2 * m + 1, 2 * rows + 1), holes));
+                x0 += 2 * m + 2;
+            }
+            v
+        }
         0 | 1 => {
             // m separate unit squares on a lattice of pitch 2 (no shared edges, no shared corners)
             let m = rng.range(2, 12) as usize;
